@@ -273,19 +273,34 @@ Definition approximate_bezier_L0 (fuel : positive) (path points : list Pos) (b :
 (* Catmull                                                             *)
 (* ================================================================== *)
 
-Definition catmull_coord (v1 v2 v3 v4 : F32) : F32 * F32 * F32 * F32 :=
-  let x1 := S.mul s2 v2 in
-  let x2 := S.add (S.neg v1) v3 in
-  let x3 := S.sub (S.add (S.sub (S.mul s2 v1) (S.mul s5 v2)) (S.mul s4 v3)) v4 in
-  let x4 := S.add (S.add (S.neg v1) (S.mul s3 (S.sub v2 v3))) v4 in
+(* The coefficient and evaluation formulas are written once over a record of
+   scalar operations and read twice: with the IEEE binary32 operations (the
+   executable model, below) and with real arithmetic (Proofs/CatmullFacts). *)
+Record Ops (T : Type) := mkOps {
+  o_add : T -> T -> T; o_sub : T -> T -> T; o_mul : T -> T -> T; o_neg : T -> T;
+  o_of_Z : Z -> T; o_half : T }.
+Arguments o_add {T} _. Arguments o_sub {T} _. Arguments o_mul {T} _. Arguments o_neg {T} _.
+Arguments o_of_Z {T} _. Arguments o_half {T} _.
+
+Definition catmull_coord_g {T} (o : Ops T) (v1 v2 v3 v4 : T) : T * T * T * T :=
+  let x1 := o_mul o (o_of_Z o 2) v2 in
+  let x2 := o_add o (o_neg o v1) v3 in
+  let x3 := o_sub o (o_add o (o_sub o (o_mul o (o_of_Z o 2) v1) (o_mul o (o_of_Z o 5) v2))
+                           (o_mul o (o_of_Z o 4) v3)) v4 in
+  let x4 := o_add o (o_add o (o_neg o v1) (o_mul o (o_of_Z o 3) (o_sub o v2 v3))) v4 in
   (x1, x2, x3, x4).
 
 (* 0.5 * (x1 + x2 * t1 + x3 * t2 + x4 * t3) *)
-Definition catmull_eval (k : F32 * F32 * F32 * F32) (t1 : F32) : F32 :=
+Definition catmull_eval_g {T} (o : Ops T) (k : T * T * T * T) (t1 : T) : T :=
   let '(x1, x2, x3, x4) := k in
-  let t2 := S.mul t1 t1 in
-  let t3 := S.mul t2 t1 in
-  S.mul s_half (S.add (S.add (S.add x1 (S.mul x2 t1)) (S.mul x3 t2)) (S.mul x4 t3)).
+  let t2 := o_mul o t1 t1 in
+  let t3 := o_mul o t2 t1 in
+  o_mul o (o_half o) (o_add o (o_add o (o_add o x1 (o_mul o x2 t1)) (o_mul o x3 t2)) (o_mul o x4 t3)).
+
+Definition f32_ops : Ops F32 := mkOps F32 S.add S.sub S.mul S.neg S.of_Z s_half.
+
+Definition catmull_coord : F32 -> F32 -> F32 -> F32 -> F32 * F32 * F32 * F32 := catmull_coord_g f32_ops.
+Definition catmull_eval : F32 * F32 * F32 * F32 -> F32 -> F32 := catmull_eval_g f32_ops.
 
 Definition catmull_subpath (v1 v2 v3 v4 : Pos) : list Pos :=
   let kx := catmull_coord (px v1) (px v2) (px v3) (px v4) in
